@@ -278,6 +278,10 @@ func (env *Env) evalCall(x *ast.CallExpr, st *State) Val {
 	// function value (variable, closure, parameter)
 	fv := env.eval(fun, st)
 	args := env.evalArgs(x.Args, st)
+	if id, ok := fun.(*ast.Ident); ok {
+		// call of a function-typed variable or parameter (yield, a callback): order/atcall clauses name it
+		env.callHooksNamed(id.Name, nil, args, st, x)
+	}
 	return env.applyFuncValue(fv, args, st, x)
 }
 
@@ -1992,9 +1996,17 @@ func (env *Env) callHooksNamed(name string, recv *Val, args []Val, st *State, ca
 		if recv != nil {
 			ie.bound["recv_"] = *recv
 		}
-		g := ie.evalBool(ac.Clause.Expr, st)
+		// a clause that cannot be evaluated at this call (it names a value that does not exist
+		// here, e.g. because the call was moved before the statement that computes it) is a failed
+		// obligation of this call, not a reason to give up the whole function
+		g, fits := c.evalLoopClause(ie, ac.Clause, st)
+		text := "atcall " + name + ": " + ac.Clause.Text
+		if !fits {
+			g = "false"
+			text += " (cannot be evaluated at this call: " + c.staleClauses[len(c.staleClauses)-1] + ")"
+		}
 		c.curGroup = ac.Clause.Group
-		c.addObl(st, fmt.Sprintf("atcall%d:%s#%d", c.ordinal("atcall/"+name), name, k), "atcall", g, c.e.pos(call.Pos()), "atcall "+name+": "+ac.Clause.Text, nil)
+		c.addObl(st, fmt.Sprintf("atcall%d:%s#%d", c.ordinal("atcall/"+name), name, k), "atcall", g, c.e.pos(call.Pos()), text, nil)
 		c.curGroup = ""
 	}
 	st.calls = append(st.calls, name)
